@@ -655,6 +655,10 @@ class _DefaultRanges(dict):
             return (-70.0, 70.0)
         if n.startswith('lon') or '.lon' in n:
             return (-170.0, 170.0)
+        if 'sigma' in n:
+            # angular distance on the auxiliary sphere (a converged loop variable): up to just short of the antipode, so that points beyond a
+            # quarter turn (cos sigma < 0) are among the samples
+            return (0.05, 3.1)
         if 'east' in n:
             return (2.0e5, 8.0e5)
         if 'north' in n:
